@@ -2,9 +2,11 @@ package transaction
 
 import (
 	"context"
+	"fmt"
 
 	"github.com/glebziz/fs_db"
 	"github.com/glebziz/fs_db/internal/model"
+	"github.com/glebziz/fs_db/internal/verifhook"
 )
 
 func (r *Repo) Store(_ context.Context, tx model.Transaction) error {
@@ -17,6 +19,9 @@ func (r *Repo) Store(_ context.Context, tx model.Transaction) error {
 	}
 
 	r.storage.Store(tx.Id, tx)
+	if verifhook.Enabled {
+		_ = verifhook.Point("tx.registered", fmt.Sprintf("%s %d", tx.Id, tx.Seq)) //nolint:errcheck
+	}
 
 	return nil
 }
